@@ -125,7 +125,7 @@ def _value(v, scope):
         turi = scope.resolve(typ)
         if turi == XSD + "anyURI":
             return ("uri", val)
-        if turi == PROV + "QUALIFIED_NAME" or turi == XSD + "QName":
+        if turi == PROV + "QUALIFIED_NAME":
             return ("qname", scope.resolve(val))
         if turi == XSD + "string":
             return ("str", val)
